@@ -24,6 +24,8 @@ EXHAUSTIVE_NOTE = "all programs M + <=3 (quick) / <=4 (thorough) commands over 2
 REQUIRED = ['s_reflects', 't_reflects', 'draw_after_z', 'implicit_repeat', 'zero_radius_arc', 'compact_flags',
             'second_moveto', 'h_v_relative', 'z_adds_line', 'z_no_line']
 TIME_LIMIT = {'quick': 200, 'thorough': 3000}
+# coverage-guided second engine: (shards, libFuzzer runs per shard)
+FUZZ = {'quick': (8, 8000), 'thorough': (16, 80000)}
 
 LETTERS = 'MmZzLlHhVvCcSsQqTtAa'
 
